@@ -391,9 +391,31 @@ class Analysis:
                 val = (0, 0)  # built as `None` on every path reaching here
         else:
             val = rng
+        # payload fields of an enum value built here (`FatMirroring::Disabled { active_fat: flags & 0x0F }`), and the known
+        # sub-places of a whole aggregate that is copied / moved
+        sub = {}
+        if k == 'agg' and rv.get('ak') == 'adt' and rv.get('variant') is not None and rv.get('vi') is not None and \
+                rv.get('adt') != 'core::option::Option' and (self.facts.adts.get(rv.get('adt')) or {}).get('kind') == 'enum':
+            names = rv.get('fields') or []
+            for i_, o_ in enumerate(rv.get('ops') or []):
+                oty_ = self.operand_ty(o_)
+                if oty_ is not None and oty_.get('k') == 'int':
+                    v_ = self.read_operand(st, o_)
+                    if v_ is not None:
+                        sub[(('dc', rv['variant'], rv['vi']), ('f', i_, names[i_] if i_ < len(names) and names[i_] is not None else str(i_)))] = v_
+        if k == 'use' and val is None:
+            p_ = op_place(rv['a'])
+            if p_ is not None:
+                pk_ = place_key(p_)
+                for k2 in st:
+                    if k2 and k2[0] == pk_[0] and isinstance(k2[1], tuple) and len(k2[1]) > len(pk_[1]) and \
+                            k2[1][:len(pk_[1])] == pk_[1] and isinstance(st[k2], tuple) and len(st[k2]) == 2:
+                        sub[k2[1][len(pk_[1]):]] = st[k2]
         # kill sub-places and auxiliary facts about the overwritten place
         for k2 in [k2 for k2 in st if k2[0] == lk[0] and k2 != lk and k2[1][:len(lk[1])] == lk[1]]:
             st.pop(k2)
+        for suf_, v_ in sub.items():
+            st[(lk[0], lk[1] + suf_)] = v_
         for tag in ('len', 'some', 'issome', 'lenof', 'lensym', 'range'):
             st.pop((tag, lk), None)
         for tag, v3 in aux.items():
@@ -1831,7 +1853,8 @@ def relation_anchor_holds(facts, r):
             elif kind == 'field':
                 ok = ok and ('field', val) in toks
             elif kind == 'call':
-                ok = ok and any(tk[0] == 'call' and tk[1].endswith(val) for tk in toks)
+                from analyses import has_call
+                ok = ok and has_call(toks, val)
             elif kind == 'op':
                 ok = ok and ('op', val) in toks
         if not ok:
